@@ -1,6 +1,6 @@
 (* extraction of the Locks model (C06) — ExtrOcamlBasic only; N/Z/positive/nat stay inductive *)
 Require Extraction.
 Require Import ExtrOcamlBasic.
-From Verif Require Import Locks.Model Locks.Contract.
+From Verif Require Import Locks.Model Locks.Contract Locks.Kill.
 Extraction Language OCaml.
-Extraction "locks_model.ml" init step lock_keys_full drain run_nth run_some pending early_exists exit_agg held_contractb next_blocked.
+Extraction "locks_model.ml" init step lock_keys_full drain run_nth run_some pending early_exists exit_agg held_contractb next_blocked interruptible.
